@@ -138,7 +138,7 @@ def appliers(ctx, R="R-C16-apply"):
         for v in got:
             calls |= SC.vocabulary(v)[0]
         if calls <= {"._apply_tensor", "._apply_vector"} and not any(S.has_unknown(v) or SC.residual_conditions(v) for v in got):
-            ctx.bad(R, ap, ap.node, "apply returns %s" % sorted(S.show(v)[:80] for v in got), "apply forwards features, axis and in_place unchanged to the vector / tensor body")
+            ctx.bad(R, ap, ap.node, "apply returns %s" % sorted(S.show(v)[:80] for v in got), "apply forwards features, axis and in_place unchanged to the vector / tensor body", robust=True)
         else:
             ctx.error(R, "cannot decide how apply dispatches: %s" % sorted(S.show(v)[:80] for v in got))
 
@@ -243,6 +243,27 @@ def _spec_test(e, arr, **kw):
     return out
 
 
+def _canon_shape(e, arr, rank):
+    """len(x) is x.shape[0]; x.shape[-k] is x.shape[rank - k] when the rank is known"""
+    if rank is None:
+        rank_ = None
+    else:
+        rank_ = rank
+
+    def fn(x):
+        if SC.is_call(x, "len") and len(x.args) == 2 and x.args[1] == S.sym(arr):
+            return S.call("getitem", S.sym(arr + ".shape"), S.ZERO)
+        if SC.is_call(x, "getitem") and len(x.args) == 3 and x.args[1] == S.sym(arr + ".shape") and x.args[2].is_const and rank_:
+            try:
+                i = int(x.args[2].value)
+            except Exception:
+                return None
+            if i < 0:
+                return S.call("getitem", x.args[1], S.lift(i % rank_))
+        return None
+    return SC.transform(e, fn)
+
+
 def _strip_widening(e):
     """x.astype(float64) and dtype=float64 keyword arguments do not change values (only the precision they are computed in,
     which the dtype clauses of R-C16-slots decide)"""
@@ -271,7 +292,7 @@ def _verdict(ctx, R, f, node, what, sc, got, want, vocab):
     calls, syms = SC.vocabulary(got)
     outside = {c for c in calls if not str(c).startswith("kw:")} - vocab
     if v == "differ" and not outside and not SC.residual_conditions(got) and not S.has_unknown(got):
-        ctx.bad(R, f, node, "[%s] %s ; documented: %s (witness over the sub-terms: %s)" % (sc, S.show(got)[:240], S.show(want)[:240], str(info)[:160]), what)
+        ctx.bad(R, f, node, "[%s] %s ; documented: %s (witness over the sub-terms: %s)" % (sc, S.show(got)[:240], S.show(want)[:240], str(info)[:160]), what, robust=True)
     else:
         ctx.error(R, "cannot decide [%s] %s: %s -- %s" % (sc, what, ("constructs outside the rule's vocabulary: " + ", ".join(sorted(map(str, outside)))) if outside else
                                                           (str(info)[:120] if info else "unresolved condition"), S.show(got)[:200]))
@@ -316,6 +337,10 @@ def _check_acc_one(ctx, R, f, st, arr, label, spec_extra, stats_none, nvar, rank
             if not (SC.is_call(got, "stored") and (len(got.args) - 2) % 2 == 0):
                 ctx.error(R, "cannot decide [%s] %s: the statistics are not updated by element stores: %s" % (sc, what, S.show(got)[:160]))
                 return False
+            rk_ = 1 if rank is None else rank
+            got = _canon_shape(got, arr, rk_)
+            base = _canon_shape(base, arr, rk_)
+            incs = {k_: _canon_shape(v_, arr, rk_) for k_, v_ in incs.items()}
             gbase = got.args[1]
             if _strip_widening(gbase) != _strip_widening(base):
                 calls, _ = SC.vocabulary(gbase)
@@ -323,7 +348,7 @@ def _check_acc_one(ctx, R, f, st, arr, label, spec_extra, stats_none, nvar, rank
                     ctx.error(R, "cannot decide [%s] %s: matrix before the update is %s" % (sc, what, S.show(gbase)[:160]))
                 else:
                     ctx.bad(R, f, f.node, "[%s] the statistics matrix the update starts from is %s ; documented: %s" % (sc, S.show(gbase)[:200], S.show(base)[:200]),
-                            "the matrix is created as float64 zeros of shape (2, coefficients + 1) on the first call and kept afterwards")
+                            "the matrix is created as float64 zeros of shape (2, coefficients + 1) on the first call and kept afterwards", robust=True)
                 return False
             regions = {}
             for i_, v in zip(got.args[2::2], got.args[3::2]):
@@ -331,12 +356,12 @@ def _check_acc_one(ctx, R, f, st, arr, label, spec_extra, stats_none, nvar, rank
             want_idx = {S.call("tuple", *idx): k for k, idx in _REG.items()}
             extra = [i_ for i_ in regions if i_ not in want_idx]
             if extra:
-                ctx.bad(R, f, f.node, "[%s] an unexpected region of the statistics matrix is written: %s" % (sc, S.show(extra[0])[:80]), "only count / sums / squares are updated")
+                ctx.bad(R, f, f.node, "[%s] an unexpected region of the statistics matrix is written: %s" % (sc, S.show(extra[0])[:80]), "only count / sums / squares are updated", robust=True)
                 return False
             for idx_e, k in want_idx.items():
                 vs = regions.get(idx_e, [])
                 if len(vs) != 1:
-                    ctx.bad(R, f, f.node, "[%s] the %s region %s is written %d times by %s" % (sc, k, REGIONS[k], len(vs), label), "%s updates the %s region" % (label, k))
+                    ctx.bad(R, f, f.node, "[%s] the %s region %s is written %d times by %s" % (sc, k, REGIONS[k], len(vs), label), "%s updates the %s region" % (label, k), robust=True)
                     return False
                 want = S.add(S.call("getitem", gbase, idx_e), incs[k])
                 if not _verdict(ctx, R, f, f.node, what, sc + ", " + k, vs[0], want, _ACC_VOCAB):
@@ -392,7 +417,7 @@ def acc_entry(ctx, R="R-C16-slots"):
     f = prog.own_method(c, "accumulate")
     arr = f.params[1]
     ev = SymEval(prog, f, inline_self=True).run()
-    st = ev.env.get("self._stats")
+    st = ev.exit_value("self._stats")
     if st is None:
         ctx.error(R, "cannot decide accumulate as a whole: the statistics matrix is not updated on the fall-through path")
         return
@@ -492,13 +517,13 @@ def apply_values(ctx, R="R-C16-apply"):
                                         done = True
                                     else:
                                         ctx.bad(R, f, f.node, "[%s] %s does not refuse to standardise the variance without statistics" % (sc, name),
-                                                "variance normalisation without global statistics is refused (ValueError)")
+                                                "variance normalisation without global statistics is refused (ValueError)", robust=True)
                                         done = True
                                     if done:
                                         break
                                     continue
                                 if raised and not any(not r.is_const for r in rs):
-                                    ctx.bad(R, f, f.node, "[%s] %s raises although the documented result exists" % (sc, name), what)
+                                    ctx.bad(R, f, f.node, "[%s] %s raises although the documented result exists" % (sc, name), what, robust=True)
                                     done = True
                                     break
                                 if taken is None or taken == "undecided":
@@ -509,7 +534,7 @@ def apply_values(ctx, R="R-C16-apply"):
                                 dk = _dtype_of(got, arr, f64)
                                 if dk in ("in", "py"):
                                     ctx.bad("R-C16-float64", f, taken[1], "[%s] %s returns an array of the input's own dtype (%s), not float64" % (sc, name, S.show(got)[:120]),
-                                            "%s returns a float64 array" % name)
+                                            "%s returns a float64 array" % name, robust=True)
                                     done = True
                                     break
                                 if dk == "?":
@@ -624,12 +649,12 @@ def dimcheck(ctx, R="R-C16-dimcheck"):
         if hit is None and undecided:
             ctx.error(R, "cannot decide whether %s refuses a coefficient-count mismatch: raise conditions %s" % (name, undecided[:2]))
             continue
-        ctx.check(hit is not None, R, f, f.node, what, "%s raises nothing when self._stats.shape[1] != coefficient count + 1 (statistics present)" % name)
+        ctx.check(hit is not None, R, f, f.node, what, "%s raises nothing when self._stats.shape[1] != coefficient count + 1 (statistics present)" % name, robust=True)
         if hit is None:
             continue
         exc = hit.exc.func if isinstance(hit.exc, ast.Call) else hit.exc
         ctx.check(exc is not None and astq.text(exc).split(".")[-1] == "ValueError", R, f, f.node, "%s: the mismatch is reported as a ValueError" % name,
-                  "the mismatch raises %s" % (astq.text(exc) if exc is not None else "a bare raise"))
+                  "the mismatch raises %s" % (astq.text(exc) if exc is not None else "a bare raise"), robust=True)
         # nothing is written in that scenario: the path condition of every in-place update is false when the counts differ
         kw = dict(stats_none=False, dims_match=False, rank=(2 if name.endswith("tensor") else None), axis=(0 if name.endswith("tensor") else None))
         for n in f.body_nodes():
@@ -640,7 +665,7 @@ def dimcheck(ctx, R="R-C16-dimcheck"):
                     continue
                 if gn.is_const:
                     ctx.check(not S.truthy(gn), R, f, n, "the dimension check precedes this update",
-                              "this update runs although the coefficient count differs from the stored width (the check comes later)")
+                              "this update runs although the coefficient count differs from the stored width (the check comes later)", robust=True)
 
 
 def readonly(ctx, R="R-C16-readonly"):
